@@ -2,6 +2,8 @@ import Vata.Nfa
 import Vata.NfaEmbed
 import Vata.NfaOps
 import Vata.Proofs.NfaOps
+import Vata.Properties.C10_StartSymbols
+import Vata.Properties.RefTotal
 /-!
 # C10 – Finite-automata union, intersection, reversal, trimming, witness are exact
 
@@ -26,7 +28,10 @@ import Vata.Proofs.NfaOps
   (`Reverse`, defined in `Vata/NfaEmbed.lean`), `nfaRemoveUnreachable`, `nfaRemoveUseless` (as coded: unreachable –
   reverse – unreachable – reverse), `nfaCandidate` (`GetCandidateTree`: breadth-first search for the first final state,
   then `RemoveUselessStates`).  The start symbols of the C++ (a set of symbols attached to each start state) are not part
-  of the model.
+  of THIS model; `Vata.NFAS` (`Vata/NfaStart.lean`) is `Vata.W.NFA` plus the map `startStateToSymbols_`, every operation
+  `nfas…` is the operation of this file on the projection `toNFA` paired with what the C++ does to the map, and
+  `Vata/Properties/C10_StartSymbols.lean` proves that the language never depends on the symbols and what symbols every start
+  state of a result shows (`C10_with_start_symbols` at the end of this file restates the property for `NFAS`).
 * **Reference (oracle of the check).**  `isUnionW`, `isIsectW`, `equivW`, `emptyW` (`Vata/NfaEmbed.lean`) decide the
   language equations above for the automata the real code returned; `C10_reference_checkers_exact` says that each of
   their verdicts is the truth.
@@ -245,24 +250,117 @@ example : equivW ⟨[0, 2], [0, 1, 4], [(0, 0, 1), (1, 1, 1), (2, 0, 3), (4, 0, 
 example : emptyW ⟨[0], [2], [(0, 5, 1), (2, 5, 2)]⟩ 10 = some true ∧
     emptyW ⟨[0, 1], [2, 4], [(0, 5, 3), (1, 6, 2), (3, 5, 4), (2, 5, 2)]⟩ 10 = some false := by decide
 
+/-! ### the property for the automata WITH their start symbols, and against the reference -/
+
+section
+open Vata.NfaS
+
+/-- **C10 for the class as it is** – word automata carrying `startStateToSymbols_` (model `Vata.NFAS`), whatever the symbols
+are: `Union` accepts exactly the union, `UnionDisjointStates` exactly the union for state-disjoint operands, `Intersection`
+exactly the intersection (for every fuel with which the exploration returns, and it returns), `Reverse` exactly the mirror
+images, both trimming operations keep the language, and the witness automaton accepts a subset that is non-empty exactly when
+the language is.  (What the START SYMBOLS of the results are is `C10_start_*_spec` in `C10_StartSymbols.lean`.) -/
+theorem C10_with_start_symbols (A B : NFAS) (w : List Nat) :
+    acceptsW (nfasUnion A B).toNFA w = (acceptsW A.toNFA w || acceptsW B.toNFA w) ∧
+    ((∀ q, q ∈ nfaStates A.toNFA → q ∈ nfaStates B.toNFA → False) →
+      acceptsW (nfasUnionDisjoint A B).toNFA w = (acceptsW A.toNFA w || acceptsW B.toNFA w)) ∧
+    (acceptsW (nfasIsect A B).toNFA w = (acceptsW A.toNFA w && acceptsW B.toNFA w) ∧
+      (∀ fuel P, nfasIntersection A B fuel = some P → acceptsW P.toNFA w = (acceptsW A.toNFA w && acceptsW B.toNFA w)) ∧
+      ∃ P, nfasIntersection A B (nfaJointAll A.toNFA B.toNFA).length = some P) ∧
+    acceptsW (nfasReverse A).toNFA w = acceptsW A.toNFA w.reverse ∧
+    (acceptsW (nfasRemoveUnreachable A).toNFA w = acceptsW A.toNFA w ∧
+      acceptsW (nfasRemoveUseless A).toNFA w = acceptsW A.toNFA w) ∧
+    ((acceptsW (nfasCandidate A).toNFA w = true → acceptsW A.toNFA w = true) ∧
+      ((∃ w, acceptsW (nfasCandidate A).toNFA w = true) ↔ ∃ w, acceptsW A.toNFA w = true)) := by
+  obtain ⟨h1, h2, h3, h4, h5, h6, h7⟩ := C10_start_languages A B w
+  have hi := (C10_start_language_independent A B).2.2.2.2.1
+  refine ⟨h1, fun hd => (C10_unionDisjoint_exact A.toNFA B.toNFA w).1 hd, ⟨h2, fun fuel P h => ?_, ?_⟩, h3, ⟨h4, h5⟩, ⟨h6, h7⟩⟩
+  · have e : nfaIntersection A.toNFA B.toNFA fuel = some P.toNFA := by rw [← hi fuel, h]; rfl
+    exact (C10_intersection_exact A.toNFA B.toNFA).2.1 fuel P.toNFA e w
+  · obtain ⟨P, hP⟩ := (C10_intersection_exact A.toNFA B.toNFA).2.2
+    have e := hi (nfaJointAll A.toNFA B.toNFA).length
+    rw [hP] at e
+    cases hq : nfasIntersection A B (nfaJointAll A.toNFA B.toNFA).length with
+    | none => rw [hq] at e; cases e
+    | some Q => exact ⟨Q, rfl⟩
+
+example : (∀ q, q ∈ nfaStates NfaSEx.exA.toNFA → q ∈ nfaStates (nfasMap (· + 10) NfaSEx.exB).toNFA → False) ∧
+    (nfasIntersection NfaSEx.exA NfaSEx.exB 5).isSome = true := by decide
+
+end
+
+/-- above the explicit fuel bounds of `C10_reference_total` the reference checkers answer, and on the results of the models
+they answer `true` (union, intersection, equivalence after reversal twice and after trimming) resp. the right emptiness verdict
+for the witness automaton -/
+theorem C10_models_pass_reference (A B : NFA) (fuel : Nat) :
+    (fuelBoundW [nfaUnion A B, A, B] ≤ fuel → isUnionW (nfaUnion A B) A B fuel = some true) ∧
+    (fuelBoundW [nfaIsect A B, A, B] ≤ fuel → isIsectW (nfaIsect A B) A B fuel = some true) ∧
+    (fuelBoundW [nfaRemoveUseless A, A] ≤ fuel → equivW (nfaRemoveUseless A) A fuel = some true) ∧
+    (fuelBoundW [nfaRemoveUnreachable A, A] ≤ fuel → equivW (nfaRemoveUnreachable A) A fuel = some true) ∧
+    (fuelBoundW [nfaReverse (nfaReverse A), A] ≤ fuel → equivW (nfaReverse (nfaReverse A)) A fuel = some true) ∧
+    (fuelBoundW [nfaCandidate A] ≤ fuel → fuelBoundW [A] ≤ fuel → emptyW (nfaCandidate A) fuel = emptyW A fuel) := by
+  refine ⟨fun hf => ?_, fun hf => ?_, fun hf => ?_, fun hf => ?_, fun hf => ?_, fun hf hf' => ?_⟩
+  · obtain ⟨b, hb, e⟩ := ((C10_reference_total (nfaUnion A B) A B fuel).1 hf).1
+    rw [hb, e.mpr (C10_union_exact A B)]
+  · obtain ⟨b, hb, e⟩ := ((C10_reference_total (nfaIsect A B) A B fuel).1 hf).2
+    rw [hb, e.mpr ((C10_intersection_exact A B).1)]
+  · obtain ⟨b, hb, e⟩ := (C10_reference_total (nfaRemoveUseless A) A A fuel).2.1 hf
+    rw [hb, e.mpr (fun w => (C10_trimming_preserves A w).2)]
+  · obtain ⟨b, hb, e⟩ := (C10_reference_total (nfaRemoveUnreachable A) A A fuel).2.1 hf
+    rw [hb, e.mpr (fun w => (C10_trimming_preserves A w).1)]
+  · obtain ⟨b, hb, e⟩ := (C10_reference_total (nfaReverse (nfaReverse A)) A A fuel).2.1 hf
+    rw [hb, e.mpr (fun w => by rw [C10_reverse_exact, C10_reverse_exact, List.reverse_reverse])]
+  · obtain ⟨b, hb, e⟩ := (C10_reference_total A (nfaCandidate A) A fuel).2.2 hf
+    obtain ⟨b', hb', e'⟩ := (C10_reference_total A A A fuel).2.2 hf'
+    rw [hb, hb']
+    congr 1
+    rw [Bool.eq_iff_iff, e, e']
+    constructor
+    · intro h w; exact C10_witness_empty_only_if_empty A h w
+    · intro h w
+      cases hw : acceptsW (nfaCandidate A) w
+      · rfl
+      · have := (C10_witness A).1 w hw
+        rw [h w] at this; cases this
+
+example : fuelBoundW [nfaUnion ⟨[0], [0], [(0, 5, 0)]⟩ ⟨[0, 1], [1], [(0, 7, 1)]⟩, ⟨[0], [0], [(0, 5, 0)]⟩,
+    ⟨[0, 1], [1], [(0, 7, 1)]⟩] ≤ 64 := by decide
+
 /-!
+## closed since the last refresh of this file
+
+* **"Start symbols. … they are not part of the model `Vata.W.NFA`, so nothing is proved about how the operations treat
+  them"** – closed in `Vata/Properties/C10_StartSymbols.lean` (model `Vata.NFAS`, correspondence kind `nfas`): the language
+  of every result is independent of the symbols (`C10_start_language_independent`, `C10_start_languages`,
+  `C10_start_symbols_irrelevant`; restated for the whole property in `C10_with_start_symbols`); the symbols every start state
+  of a result shows (`C10_start_union_spec`, `C10_start_reindex_spec`, `C10_start_unionDisjoint_spec`,
+  `C10_start_intersection_spec`, `C10_start_reverse_spec`, `C10_start_trim_spec`, `C10_start_witness_spec`,
+  `C10_start_setStart_spec`, `C10_start_setExistingStart_spec`); dump / load with several symbols per state
+  (`C10_start_load_spec`, `C10_start_dump_load`); history invariants (`C10_start_history_keys`,
+  `C10_start_history_nonempty`, `C10_start_history_stale_unobservable`).
+* "No totality theorem for the reference checkers `isUnionW`, `isIsectW`, `equivW`, `emptyW`": `C10_reference_total`
+  (`Vata/Properties/RefTotal.lean`), composed with the models in `C10_models_pass_reference`.
+
 ## not yet proved
 
-* **Start symbols.**  The C++ attaches a set of start symbols to every start state (`startStateToSymbols_`, the
-  nullary Timbuk rules); they are not part of the model `Vata.W.NFA`, so nothing is proved about how the operations
-  treat them.
+* **Stale start-symbol entries – a finding.**  `Reverse` and `RemoveUnreachableStates` leave entries of non-start states in
+  the map; `SetStateStart`, `SetExistingStateStart` and `UnionDisjointStates` read them (`C10_start_stale_observable`:
+  symbols invented, symbols lost – the real class behaves like the model).  The specifications of these three calls carry
+  the hypothesis "no stale entry is hit", which nothing the API shows implies.
 * **`UnionDisjointStates` outside its precondition.**  `C10_unionDisjoint_exact` needs the operands to be
   state-disjoint; for operands that share a state only `⊇` is proved for the model, and the model does not describe the
   C++ there (`map::insert` keeps only the left operand's transitions of a shared source state).
 * **Numbering of `Union` and `Intersection`.**  The models fix one numbering (order of first occurrence / order of
   discovery); the C++ numbers in the iteration order of its hash containers.  That the real translation maps are
   injective with disjoint images (resp. injective on the explored pairs) is a hypothesis of `C10_unionWith_exact` and
-  `C10_product_certificate`, not derived from a model of the container iteration.
+  `C10_product_certificate`, not derived from a model of the container iteration (the driver checks it on the reported
+  maps).
 * **`GetCandidateTree`.**  The model scans the start states in list order (the C++ scans a hash set), so which final
   state is found first may differ; the two guarantees of `C10_witness` hold for the model whatever the order of the
   list, but "the model returns the same automaton as the code" is not claimed.
-* The reference checkers `isUnionW`, `isIsectW`, `equivW`, `emptyW` are total above the explicit bounds `fuelBoundW […]`
-  (`C10_reference_total` in `Vata/Properties/RefTotal.lean`; exponential worst-case bounds, not tight).
-  `nfaIntersection` is total only in the form "the fuel `(nfaJointAll A B).length` suffices".
+* Load / dump of word automata abstracts the dictionaries to a pair of functions with `g ∘ f = id` on the names, and the
+  process-wide symbol alphabet to the protocol numbers of the check (`C10_start_dump_load`).
+* The totality bounds of the reference checkers are exponential worst-case bounds, not tight.  `nfaIntersection` is total
+  only in the form "the fuel `(nfaJointAll A B).length` suffices".
 -/
 end Vata.Props
